@@ -109,34 +109,21 @@ theorem roundFrequency_pos (r : Freq) : 0 < roundFrequency r := by
           · have := h5 (by omega); omega
 
 /-- The `final_freq` chain (`guess_frequency` at 1000 Hz, at 100 Hz, then the rounding table) lands on
-the documented grid for every rate `n/d ≤ 1500` — except that a rate snapping to a multiple
-`M ≥ 200` of 100 Hz is reported as 100 Hz (`KF.C19.multipleOfBase`). -/
-theorem finalFreq_grid (n d : Nat) (hd : 0 < d) (hmax : n ≤ 1500 * d)
-    (hkf : ¬ (¬ Snaps 1000 n d ∧ ∃ M, M ≤ n / d + 100 ∧ Snap 100 n d M ∧ 200 ≤ M)) :
+the documented grid for every rate `n/d` — full strength since `guess_frequency` returns the multiple
+it matched (fixes/C19-guess-frequency-returns-the-multiple.patch). -/
+theorem finalFreq_grid (n d : Nat) (hd : 0 < d) :
     Grid n d (finalFreq ⟨n, d⟩) ∧ 0 < finalFreq ⟨n, d⟩ := by
   unfold Grid finalFreq finalFreqT
   simp only [Uptime.guessHz1k, Uptime.guessHz100, Uptime.guessTolerance]
   by_cases hs1 : Snaps 1000 n d
-  · -- snaps to 1000·k, and k = 1 because the rate is at most 1500 Hz
-    obtain ⟨M, _, hM⟩ := hs1
+  · obtain ⟨M, _, hM⟩ := hs1
     have hu := snap_unique n d 1000 M hd (by omega) hM
-    have hg : guessFrequency ⟨n, d⟩ 1000 (1, 10) = some 1000 := by
+    have hg : guessFrequency ⟨n, d⟩ 1000 (1, 10) = some (1000 * multOf n d 1000) := by
       rw [guess_iff n d 1000 hd (by omega), ← hu]; exact hM
-    have hk2 : multOf n d 1000 ≤ 2 := by
-      obtain ⟨hb1, _⟩ := mult_bounds n d 1000 hd (by omega)
-      have : 1000 * d * multOf n d 1000 ≤ 1000 * d * 2 := by omega
-      exact Nat.le_of_mul_le_mul_left this (by omega)
-    have hM1 : M = 1000 := by
-      obtain ⟨hpos, _, _, _, _, htol⟩ := hM
-      have : multOf n d 1000 = 0 ∨ multOf n d 1000 = 1 ∨ multOf n d 1000 = 2 := by omega
-      rcases this with h | h | h <;> rw [h] at hu <;> subst hu
-      · omega
-      · rfl
-      · exfalso; omega
     have hs1' : Snaps 1000 n d := ⟨M, by assumption, hM⟩
     simp only [hg, hs1', if_true]
-    subst hM1
-    exact ⟨hM, by omega⟩
+    rw [← hu]
+    exact ⟨hM, hM.1⟩
   · have hg : guessFrequency ⟨n, d⟩ 1000 (1, 10) = none := by
       rcases guess_cases ⟨n, d⟩ 1000 (1, 10) with h | h
       · exact h
@@ -147,19 +134,12 @@ theorem finalFreq_grid (n d : Nat) (hd : 0 < d) (hmax : n ≤ 1500 * d)
     by_cases hs2 : Snaps 100 n d
     · obtain ⟨M, hMle, hM⟩ := hs2
       have hu := snap_unique n d 100 M hd (by omega) hM
-      have hg2 : guessFrequency ⟨n, d⟩ 100 (1, 10) = some 100 := by
+      have hg2 : guessFrequency ⟨n, d⟩ 100 (1, 10) = some (100 * multOf n d 100) := by
         rw [guess_iff n d 100 hd (by omega), ← hu]; exact hM
-      have hM1 : M = 100 := by
-        have hlt : M < 200 := by
-          by_cases h : 200 ≤ M
-          · exact absurd ⟨hs1, M, hMle, hM, h⟩ hkf
-          · omega
-        obtain ⟨hpos, hmod, _⟩ := hM
-        omega
       have hs2' : Snaps 100 n d := ⟨M, hMle, hM⟩
       simp only [hg2, hs2', if_true]
-      subst hM1
-      exact ⟨hM, by omega⟩
+      rw [← hu]
+      exact ⟨hM, hM.1⟩
     · have hg2 : guessFrequency ⟨n, d⟩ 100 (1, 10) = none := by
         rcases guess_cases ⟨n, d⟩ 100 (1, 10) with h | h
         · exact h
@@ -170,7 +150,8 @@ theorem finalFreq_grid (n d : Nat) (hd : 0 < d) (hmax : n ≤ 1500 * d)
       exact ⟨roundFrequency_rounded ⟨n, d⟩, roundFrequency_pos ⟨n, d⟩⟩
 
 example : finalFreq ⟨1000 * 1000, 1000⟩ = 1000 ∧ finalFreq ⟨100 * 1000, 1000⟩ = 100 ∧
-    finalFreq ⟨250 * 1000, 1000⟩ = 250 ∧ finalFreq ⟨1024 * 1000, 1000⟩ = 1000 := by decide
+    finalFreq ⟨250 * 1000, 1000⟩ = 250 ∧ finalFreq ⟨1024 * 1000, 1000⟩ = 1000 ∧
+    finalFreq ⟨300 * 1000, 1000⟩ = 300 ∧ finalFreq ⟨700 * 1000, 1000⟩ = 700 := by decide
 
 /-! ### one estimate -/
 
@@ -178,67 +159,61 @@ example : finalFreq ⟨1000 * 1000, 1000⟩ = 1000 ∧ finalFreq ⟨100 * 1000, 
 def FullEstimateMeetsSpec : Prop :=
   ∀ t0 v0 t1 v1 : Nat, v0 < U32 → v1 < U32 → EstOk t0 v0 t1 v1 (estimate t0 v0 t1 v1)
 
-/-- **C19, partial.** For every reference `(t0, v0)` and current segment `(t1, v1)` outside the three
-known-finding classes: an estimate is reported iff the interval is within 25 ms … 10 min and the
+/-- **C19, partial.** For every reference `(t0, v0)` and current segment `(t1, v1)` outside the one
+remaining known-finding class (fewer than 5 ticks): an estimate is reported iff the interval is within 25 ms … 10 min and the
 rate within 1 … 1500 Hz; its frequency is the rate on the documented grid; the uptime is the later
 timestamp divided by it, split with hours < 24 and minutes < 60; the wrap period is 2^32 ticks in
 whole days. No bound on times or timestamp values. -/
 theorem estimate_meets_spec_partial (t0 v0 t1 v1 : Nat) (h0 : v0 < U32) (h1 : v1 < U32)
     (hk : ¬ Huginn.KF.C19.any t0 v0 t1 v1) : EstOk t0 v0 t1 v1 (estimate t0 v0 t1 v1) := by
-  unfold Huginn.KF.C19.any Huginn.KF.C19.multipleOfBase Huginn.KF.C19.minTicks
-    Huginn.KF.C19.backwardAccepted at hk
-  simp only [not_or] at hk
-  obtain ⟨hk1, hk2, hk3⟩ := hk
+  unfold Huginn.KF.C19.any Huginn.KF.C19.minTicks at hk
   have htd : (v1 + U32 - v0) % U32 = advance v0 v1 := rfl
   have hlt : advance v0 v1 < U32 := Nat.mod_lt _ (by unfold U32; omega)
   unfold EstOk
   by_cases hin : InBounds t0 v0 t1 v1
   · -- inside the bounds: an estimate on the grid
     simp only [hin, if_true]
-    have hmin : ¬ advance v0 v1 < 5 := fun h => hk2 ⟨hin, h⟩
-    have hkf : ¬ (¬ Snaps 1000 (advance v0 v1 * 1000) (t1 - t0) ∧
-        ∃ M, M ≤ advance v0 v1 * 1000 / (t1 - t0) + 100 ∧ Snap 100 (advance v0 v1 * 1000) (t1 - t0) M ∧ 200 ≤ M) :=
-      fun h => hk1 ⟨hin, h.1, h.2⟩
+    have hmin : ¬ advance v0 v1 < 5 := fun h => hk ⟨hin, h⟩
     obtain ⟨hle, hlo, hhi, hr1, hr2⟩ := hin
     have hcalc : calcFreq v1 t1 v0 t0 = some ⟨advance v0 v1 * 1000, t1 - t0⟩ := by
       unfold calcFreq calcFreqT
-      simp only [htd, Uptime.minTwait, Uptime.maxTwait, Uptime.minTsDiff, Uptime.tstampGrace, Uptime.maxFinalHz,
-        Uptime.minFinalHz, Uptime.freqScale, Uptime.backwardScale]
+      simp only [htd, Uptime.minTwait, Uptime.maxTwait, Uptime.minTsDiff, Uptime.maxFinalHz,
+        Uptime.minFinalHz, Uptime.freqScale]
       have hb : ¬ advance v0 v1 > U32 - 1 - advance v0 v1 := by unfold U32; omega
       have hmax1 : max (t1 - t0) 1 = t1 - t0 := Nat.max_eq_left (by omega)
       simp only [show ¬ t1 - t0 < 25 by omega, show ¬ t1 - t0 > 600000 by omega, hb, hmin, if_false,
-        decide_false, Bool.false_eq_true, hmax1, Nat.mul_one, Nat.one_mul]
+        hmax1, Nat.mul_one, Nat.one_mul]
       rw [if_neg (by omega), if_neg (by omega)]
     unfold estimate
     rw [hcalc]
     have hdpos : 0 < t1 - t0 := by omega
-    obtain ⟨hgrid, hpos⟩ := finalFreq_grid (advance v0 v1 * 1000) (t1 - t0) hdpos hr2 hkf
+    obtain ⟨hgrid, hpos⟩ := finalFreq_grid (advance v0 v1 * 1000) (t1 - t0) hdpos
     have hfreq : ∀ F, (uptimeFrom v1 F).freq = F := fun _ => rfl
     simp only [hfreq]
     exact ⟨hgrid, uptime_split v1 _ hpos⟩
-  · -- outside the bounds: nothing (a forward step that the code accepts is inside the bounds)
+  · -- outside the bounds: nothing (backward steps are withheld; an accepted forward step is in bounds)
     simp only [hin, if_false]
-    have hfw : ¬ advance v0 v1 > U32 - 1 - advance v0 v1 := fun h => hk3 ⟨hin, h⟩
     unfold estimate
     have hnone : calcFreq v1 t1 v0 t0 = none := by
       unfold calcFreq calcFreqT
-      simp only [htd, Uptime.minTwait, Uptime.maxTwait, Uptime.minTsDiff, Uptime.tstampGrace, Uptime.maxFinalHz,
-        Uptime.minFinalHz, Uptime.freqScale, Uptime.backwardScale, hfw, decide_false, Bool.false_eq_true, if_false,
-        Nat.mul_one, Nat.one_mul]
+      simp only [htd, Uptime.minTwait, Uptime.maxTwait, Uptime.minTsDiff, Uptime.maxFinalHz,
+        Uptime.minFinalHz, Uptime.freqScale, Nat.mul_one, Nat.one_mul]
       by_cases c1 : t1 - t0 < 25
       · simp [c1]
       · by_cases c2 : t1 - t0 > 600000
         · simp [c1, c2]
-        · by_cases c3 : advance v0 v1 < 5
-          · simp [c1, c2, c3]
-          · have hmax1 : max (t1 - t0) 1 = t1 - t0 := Nat.max_eq_left (by omega)
-            simp only [c1, c2, c3, if_false, hmax1]
-            by_cases c4 : advance v0 v1 * 1000 < t1 - t0
-            · simp [c4]
-            · by_cases c5 : advance v0 v1 * 1000 > 1500 * (t1 - t0)
-              · simp [c4, c5]
-              · exfalso
-                exact hin ⟨by omega, by omega, by omega, by omega, by omega⟩
+        · by_cases cb : advance v0 v1 > U32 - 1 - advance v0 v1
+          · simp [c1, c2, cb]
+          · by_cases c3 : advance v0 v1 < 5
+            · simp [c1, c2, cb, c3]
+            · have hmax1 : max (t1 - t0) 1 = t1 - t0 := Nat.max_eq_left (by omega)
+              simp only [c1, c2, cb, c3, if_false, hmax1]
+              by_cases c4 : advance v0 v1 * 1000 < t1 - t0
+              · simp [c4]
+              · by_cases c5 : advance v0 v1 * 1000 > 1500 * (t1 - t0)
+                · simp [c4, c5]
+                · exfalso
+                  exact hin ⟨by omega, by omega, by omega, by omega, by omega⟩
     rw [hnone]
 
 /-! ### the tracker: bad markers, directions, histories -/
@@ -480,23 +455,24 @@ example :
     noKF [] os ∧ (run { cap := 8 } os).map showOut = ["-", "-", "c:0:0:0:49:1000", "s:0:1:0:198:250"] := by
   decide +kernel
 
-/-- DESIGN §8 #28: +60 ticks in 200 ms (300 Hz) is reported as 100 Hz -/
-theorem kf_multipleOfBase_witness :
-    Huginn.KF.C19.multipleOfBase 0 1000 200 1060 ∧ ¬ EstOk 0 1000 200 1060 (estimate 0 1000 200 1060) ∧
-    (estimate 0 1000 200 1060).map (·.freq) = some 100 := by decide +kernel
+/-- repaired (DESIGN §8 #28, fixes/C19-guess-frequency-returns-the-multiple.patch): +60 ticks in
+200 ms is reported as 300 Hz -/
+theorem fixed_multipleOfBase_regression :
+    EstOk 0 1000 200 1060 (estimate 0 1000 200 1060) ∧ (estimate 0 1000 200 1060).map (·.freq) = some 300 := by
+  decide +kernel
 
 /-- 2 ticks in one second (2 Hz) is inside the stated bounds, yet nothing is reported -/
 theorem kf_minTicks_witness :
     Huginn.KF.C19.minTicks 0 1000 1000 1002 ∧ ¬ EstOk 0 1000 1000 1002 (estimate 0 1000 1000 1002) ∧
     estimate 0 1000 1000 1002 = none := by decide +kernel
 
-/-- the timestamp went back by 100 ticks in one second: reported as a 100 Hz clock -/
-theorem kf_backwardAccepted_witness :
-    Huginn.KF.C19.backwardAccepted 0 5000 1000 4900 ∧ ¬ EstOk 0 5000 1000 4900 (estimate 0 5000 1000 4900) ∧
-    (estimate 0 5000 1000 4900).map (·.freq) = some 100 := by decide +kernel
+/-- repaired (fixes/C19-backward-timestamp-withheld.patch): a timestamp that went back by 100 ticks
+in one second yields nothing -/
+theorem fixed_backwardAccepted_regression :
+    EstOk 0 5000 1000 4900 (estimate 0 5000 1000 4900) ∧ estimate 0 5000 1000 4900 = none := by decide +kernel
 
 theorem full_statement_fails : ¬ FullEstimateMeetsSpec := by
   intro h
-  exact kf_multipleOfBase_witness.2.1 (h 0 1000 200 1060 (by decide) (by decide))
+  exact kf_minTicks_witness.2.1 (h 0 1000 1000 1002 (by decide) (by decide))
 
 end Huginn.Props.C19
